@@ -267,6 +267,85 @@ print('history', hist, 'objects', pair, 'coefficients', cf)
 sys.exit(1 if bad else 0)
 '''
 
+
+# ---- histories on a Sector's equation: terms added, the right-hand side restated, terms added again -----------------------------
+
+SEC_TERMS = ['x', '-x', 'x*y', '-(x*y)', 'y', '2']
+SEC_LEADS = ['a*b', '', 'x']
+
+
+def sector_histories(tier):
+    ops = [('T', t) for t in SEC_TERMS] + [('R', l) for l in SEC_LEADS]
+    out = []
+    L = 3 if tier == 'quick' else 4
+    for n in range(2, L + 1):
+        for hi, h in enumerate(itertools.product(ops, repeat=n)):
+            if not any(o == 'R' for o, _ in h[1:]) or h[0][0] != 'T':
+                continue        # the interesting histories restate the right-hand side AFTER something was added
+            if n == 4 and hi % 5:
+                continue
+            out.append(h)
+    return out
+
+
+def sector_hist_chunk(hs):
+    from sfc_models.models import Model, Country
+    from sfc_models.sector import Sector
+    bad = []
+    n = 0
+    env = lambda nme: z3.Real('X_' + nme)
+    D = Decider()
+    for h in hs:
+        m = Model(); c = Country(m, 'CO'); s = Sector(c, 'S')
+        s.AddVariable('V', 'built up', '')
+        want = z3.RealVal(0)
+        try:
+            for op, arg in h:
+                if op == 'T':
+                    s.AddTermToEquation('V', arg)
+                    want = want + to_z3(arg, env)
+                else:
+                    s.SetEquationRightHandSide('V', arg)
+                    want = to_z3(arg, env) if arg.strip() else z3.RealVal(0)
+        except (LogicError, SyntaxError, NotImplementedError):
+            continue
+        n += 1
+        rhs = s.EquationBlock['V'].RHS()
+        try:
+            got = to_z3(rhs, env) if rhs.strip() else z3.RealVal(0)
+        except Untranslatable as e:
+            bad.append((h, 'rendering %r does not parse: %s' % (rhs, e)))
+            continue
+        if not z3.eq(z3.simplify(got - want), z3.RealVal(0)):
+            r, mdl = D.decide([got != want], ladder=False, timeout_ms=10000)
+            if r == 'sat':
+                bad.append((h, 'V renders %r, which is not the restated right-hand side plus the terms added after it' % (rhs,)))
+            elif r != 'unsat':
+                bad.append((h, 'unknown'))
+    return {'n': n, 'bad': bad, 'solver_s': D.solver_s, 'queries': D.queries}
+
+
+REPLAY_SECTOR = '''
+import sys, random
+from sfc_models.models import Model, Country
+from sfc_models.sector import Sector
+h = %(h)r
+m = Model(); c = Country(m, 'CO'); s = Sector(c, 'S'); s.AddVariable('V', 'built up', '')
+parts = []
+for op, arg in h:
+    if op == 'T': s.AddTermToEquation('V', arg); parts.append(arg)
+    else: s.SetEquationRightHandSide('V', arg); parts = [arg] if arg.strip() else []
+rhs = s.EquationBlock['V'].RHS()
+print('history', h, '->', repr(rhs), '; expected the sum of', parts)
+rnd = random.Random(11); bad = False
+for i in range(5):
+    env = {n: rnd.uniform(0.5, 3.0) for n in 'xyab'}
+    got = eval(rhs, {}, env) if rhs.strip() else 0.0
+    want = sum(eval('(%%s)' %% p, {}, env) for p in parts)
+    if abs(got - want) > 1e-9 * (1 + abs(got) + abs(want)): print('at', env, 'renders', got, 'expected', want); bad = True; break
+sys.exit(1 if bad else 0)
+'''
+
 REPLAY_ADD = '''
 import sys
 from sfc_models.equation import Equation, Term
@@ -393,6 +472,22 @@ def run(tier, seed):
                               REPLAY_HIST % dict(pair=pair, lead=lead, hist=hist, mode=mode, cs=o['viol']['c'], strs=STR_ARGS))
     chk.sample({'harness': 'E2 Term-object histories', 'histories': len(hs), 'post': 'value(RHS_e) == lead + sum of c_i * term_i added to e, for both equations, '
                 'and the caller-held Term objects keep their coefficients; for all real c0, c1 and valuations'})
+    shs = sector_histories(tier)
+    chk.bounds['Sector equation histories'] = ('%d histories of <= %d calls of Sector.AddTermToEquation (terms %r) and Sector.SetEquationRightHandSide (%r) on one variable: '
+                                               'the rendering equals the last restated right-hand side plus the terms added after it' % (len(shs), 3 if tier == 'quick' else 4, SEC_TERMS, SEC_LEADS))
+    for st, r in pmap(sector_hist_chunk, [shs[i::16] for i in range(16)]):
+        if st != 'ok':
+            chk.harness_errors.append(r[:800])
+            continue
+        chk.solver_s += r['solver_s']; chk.queries += r['queries']
+        chk.obligations += r['n']
+        chk.discharged += r['n'] - len(r['bad'])
+        for h, why in r['bad']:
+            if why == 'unknown':
+                chk.inconclusive += 1
+                continue
+            chk.violation('sector-history:%s' % ('restated-then-same-term' if any(o == 'R' for o, _ in h) else str(h))[:80], 'history %r: %s' % (h, why), REPLAY_SECTOR % dict(h=h))
+    chk.distinct |= {('sec', i) for i in range(len(shs))}
     lists = term_lists(tier)
     for st, r in pmap(cet_chunk, [lists[i::32] for i in range(32)]):
         if st != 'ok':
